@@ -58,7 +58,13 @@ def cfg_kwargs(case):
     if SHARED is not None and blinds is not None:
         # a casino that keeps one blinds list per stake level and seats every table of that level from it
         blinds = SHARED.setdefault(("blinds", tuple(blinds)), blinds)
-    return dict(num_players=case["n"], deck=list(case["deck"]), starting_stacks=list(case["stacks"]),
+    deck = list(case["deck"]); stacks = list(case["stacks"])
+    if SHARED is not None:
+        # ... and one deck list per deal, one stack list per line-up: duplicate tables (the same deal played at two tables, the
+        # same line-up seated again) are built from the very same objects
+        deck = SHARED.setdefault(("deck", tuple(deck)), deck)
+        stacks = SHARED.setdefault(("stacks", tuple(stacks)), stacks)
+    return dict(num_players=case["n"], deck=deck, starting_stacks=stacks,
                 hands=[list(h) for h in case["hands"]], boards=[list(case.get("board") or [])],
                 ante=case["ante"], blinds=blinds,
                 all_in_runouts=case["runouts"], rake_fraction=f, max_rake=case["cap"])
@@ -100,6 +106,7 @@ def new_game(case):
     g._cv_fake = fake
     g._cv_peek = bool(case.get("peek"))
     g._cv_hostile = bool(case.get("hostile"))
+    g._cv_twostep = bool(case.get("twostep"))
     g._cv_kw = kw          # the very argument objects the game was built from
     if case.get("via_resume") and not case.get("resume_at"):
         g = resumed(g, case)
@@ -122,6 +129,9 @@ def resumed(g, case):
         order.reverse()
     pb = {p: g.pot.balances[p] for p in order if p in g.pot.balances}
     la = {p: g.last_actions[p] for p in order if p in g.last_actions}
+    if vr % 3 == 0:
+        # a store that writes one entry per seat: seats that have not acted this street are there with an explicit None
+        la = {p: g.last_actions.get(p) for p in order}
     install_sampler(g._cv_fake)
     try:
         h = cls(num_players=n, deck=list(g.deck), starting_stacks=list(kw["starting_stacks"]), hands=kw["hands"],
@@ -134,6 +144,7 @@ def resumed(g, case):
         g._cv_resume_exc = f"{type(e).__name__}: {str(e)[:100]} (seat to act {g.action}, street {g.street})"
         return g
     h._cv_fake = g._cv_fake; h._cv_peek = g._cv_peek; h._cv_kw = kw; h._cv_hostile = getattr(g, "_cv_hostile", False)
+    h._cv_twostep = getattr(g, "_cv_twostep", False)
     return h
 
 
@@ -187,7 +198,22 @@ def apply_op(g, op):
     before = (list(g.stacks), dict(g.pot.balances), len(g.actions), dict(g.last_actions))
     try:
         with core.time_limit(3.0):
-            g.act(player=p, action=t, amount=a)
+            if getattr(g, "_cv_twostep", False):
+                # the documented two-step form of a move (`act` = `append_action` + `advance_action`), with what a client
+                # does between the halves: it re-reads the figures it displays and fires off a wager that is refused
+                g.append_action(player=p, action=t, amount=a)
+                for q in ("amount_to_call", "min_bet", "max_bet", "valid_actions", "pot_sized_bet"):
+                    try:
+                        getattr(g, q)
+                    except Exception:
+                        pass
+                try:
+                    g.append_action(player=p, action="RAISE", amount=10 ** 30)      # far beyond any stack: refused
+                except Exception:
+                    pass
+                g.advance_action()
+            else:
+                g.act(player=p, action=t, amount=a)
         return "ok", ""
     except core.Hang as e:
         return "internal", f"Hang: act({p!r}, {t!r}, {a!r}) {e}"
@@ -217,7 +243,7 @@ def run_ops(case, shared_from=None):
                     kw["blinds"] = shared_from._cv_kw["blinds"]          # ... and the same table configuration objects
                 kw["starting_stacks"] = shared_from._cv_kw["starting_stacks"]
                 g = cls(**kw)
-                g._cv_fake = fake; g._cv_peek = bool(case.get("peek")); g._cv_kw = kw
+                g._cv_fake = fake; g._cv_peek = bool(case.get("peek")); g._cv_kw = kw; g._cv_twostep = bool(case.get("twostep"))
     except Exception as e:
         rec["ctor"] = {"err": type(e).__name__, "msg": str(e)[:100]}
         return rec, None
@@ -303,8 +329,18 @@ def run_ops(case, shared_from=None):
                 rec["hostile_diff"] = (f"set up again from the same table objects the hand starts differently: stacks/pot "
                                        f"{rec.get('ctor', {}).get('stacks')}/{rec.get('ctor', {}).get('pot')} then {rec2.get('ctor', {}).get('stacks')}/{rec2.get('ctor', {}).get('pot')}")
             else:
+                def same(x, y):
+                    sx, sy = sig(x), sig(y)
+                    if sx[:7] != sy[:7]:
+                        return False
+                    for u, v in zip(sx[7:], sy[7:]):       # payouts / rake: floats, equal up to rounding
+                        if (u is None) != (v is None):
+                            return False
+                        if u is not None and not (len(u) == len(v) and all(core.close(p_, q_) for p_, q_ in zip(u, v))):
+                            return False
+                    return True
                 for i, (a, b) in enumerate(zip(first, rec2["steps"])):
-                    if sig(a) != sig(b):
+                    if not same(a, b):
                         rec["hostile_diff"] = (f"played again after the caller overwrote the result dicts he had been handed, real move {i} "
                                                f"goes differently: {sig(a)} then {sig(b)}")
                         break
@@ -420,6 +456,8 @@ def gen_cfg(rng, scope="mixed", huge=False):
         cfg["peek"] = True      # a client that previews the rake on the live pot between actions (a read-only query)
     if rng.random() < 0.3:
         cfg["hostile"] = True   # a caller that edits what it is handed and keeps one table configuration (see run_ops)
+    if rng.random() < 0.3:
+        cfg["twostep"] = True   # moves made as append_action + queries + a refused wager + advance_action (see apply_op)
     if rng.random() < 0.25:
         cfg["via_resume"] = rng.randrange(1, 12)
         cfg["resume_at"] = rng.choice([0, 0, 1, 2, 3, 4, 6])
